@@ -54,7 +54,7 @@ ASSUMPTIONS = [
     "perturbations are injected through a sampler plug-in with magnitude 1 and no bounds, so perturbed = x + sample exactly",
     "the least-squares solver is a black box that is run on bit-identical systems in the full and in the reduced runs",
     "with a realization filter every function of the case is mapped to it; the reduced gradient run uses the reported weight row restricted to the survivors as configured weights (DESIGN C03 Reading)",
-    "merged estimation is judged differentially only (full vs. physically reduced ensemble, full vs. twin), which is independent of known finding C02:merged-gradient-scaled (both runs weight the rows alike); with merge_realizations and no weight on any realization that succeeds for the gradient (0/0, outside the quantifier) the real code raises ValueError from the empty stacked system -- modelled explicitly (mraise), reported as a finding",
+    "merged estimation is judged differentially only (full vs. physically reduced ensemble, full vs. twin), which is independent of known finding C02:merged-gradient-scaled (both runs weight the rows alike); in the 0/0 region (no realization that succeeds for the gradient carries weight in force, outside the quantifier) gradient values are not compared, but flags, gates, exit codes and the absence of an escaping exception are (the empty stacked system of the merged estimate raised ValueError before fix 294d53c, F14f)",
     "when all survivors have configured weight zero but a cvar filter gives them weight in force, the physically reduced function run is configured with uniform weights (an all-zero weight vector is rejected by the configuration; CVaR weights do not depend on the configured weights)",
 ]
 TRUSTED = [
@@ -773,12 +773,8 @@ def oracle(case, obs):
     gate_f = failed_fn.count(False) >= rmin
     gate_g = failed_g.count(False) >= rmin
     if obs["outcome"] == "raise":
-        # Outside the quantifier (no realization that succeeds for the gradient carries weight in force: 0/0): with
-        # merge_realizations the stacked system is then empty and the solver raises (reported as a finding, C14 family).
-        wf = obs["fouts"][0][1] if obs["fouts"] and obs["fouts"][0][0] == "w" else obs["cfg"]["w"]
-        if case.get("merge") and gate_g and obs["fouts"][:1] != [["abort"]] \
-                and sum(wf[r] for r in range(R) if not failed_g[r]) == 0:
-            return None
+        # also outside the quantifier (0/0: no realization that succeeds for the gradient carries weight in force) an
+        # exception must not escape; with merge_realizations the stacked system is then empty (F14f, fixed by 294d53c)
         return {"clause": "unexpected-exception", "detail": obs.get("exc")}
     S = magnitude(case, obs)
     stddev_used = any(F._ekind(m) == "Stddev" for m in case["ests"])
